@@ -8,6 +8,8 @@ ROOT="$(cd "$(dirname "${BASH_SOURCE[0]}")/.." && pwd)"
 RUNS="${RUNS:-30000}"
 PAT="${1:-}"
 OUT="$ROOT/tools/sensitivity_last.txt"
+export SMTSIM_EVIDENCE_DIR="$ROOT/sim/target/tmp/sensitivity-evidence"
+mkdir -p "$SMTSIM_EVIDENCE_DIR"
 : > "$OUT"
 if ! git -C /repo diff --quiet; then echo "/repo has uncommitted changes; refusing"; exit 2; fi
 trap 'git -C /repo checkout -- . 2>/dev/null' EXIT
@@ -33,4 +35,4 @@ for d in "$ROOT"/tools/mutants/*.diff "$ROOT"/seeded/*/patch.diff; do
   git -C /repo checkout -- .
   echo "$line" | tee -a "$OUT"
 done
-# evidence files now describe runs on patched trees: callers should re-run the checks on the clean tree
+# evidence of these runs goes to sim/target/tmp/sensitivity-evidence, not to /verif/evidence
